@@ -740,6 +740,262 @@ func runC10(c *Ctx) {
 		}
 	}
 
+	// ---------------------------------------------------------------- C10.8
+	// (defect D61) In the message pipeline the re-encoded form of a message exists between the
+	// encode helper and the compress helper.  Its size can be many times the size of either wire
+	// form (protobuf -> JSON), and once it is compressed again the callers only see the small
+	// compressed buffer.  So on every path from the encode helper's call to the compress helper's
+	// call (or to the end of the stage transition) the message buffer's length is compared with a
+	// limit value - whether the re-encoded form counts must not depend on whether the peer
+	// compressed.
+	c.Rule("C10.8", "the re-encoded form of a message is compared with the limit before it is compressed again", 1)
+	{
+		msgPT := types.NewPointer(p.MustNamed("message"))
+		adv := p.MethodOf(msgPT, "advanceToStage")
+		enc := p.MethodOf(msgPT, "encode")
+		cmpr := p.MethodOf(msgPT, "compress")
+		bufF := p.MustField("message", "buf")
+		if adv == nil || enc == nil || cmpr == nil {
+			fatalf("anchor=message.advanceToStage/encode/compress not found")
+		}
+		nEnc := 0
+		for _, fn := range p.Family(adv) {
+			for _, call := range Calls(fn) {
+				if call.Common().StaticCallee() != enc {
+					continue
+				}
+				nEnc++
+				isLimitCmp := func(in ssa.Instruction) bool {
+					iff, ok := in.(*ssa.If)
+					if !ok {
+						return false
+					}
+					b, ok := iff.Cond.(*ssa.BinOp)
+					if !ok {
+						return false
+					}
+					for _, side := range [][2]ssa.Value{{b.X, b.Y}, {b.Y, b.X}} {
+						lenSide, limSide := side[0], side[1]
+						isMsgLen := false
+						for _, l := range Origins(lenSide) {
+							if l.Kind == "call" && IsCallTo(l.Call, "(*bytes.Buffer).Len") && LoadedField(l.Call.Common().Args[0]) == bufF {
+								isMsgLen = true
+							}
+						}
+						if isMsgLen && lc.isLimit(limSide) {
+							return true
+						}
+					}
+					return false
+				}
+				isNext := func(in ssa.Instruction) bool {
+					if ci, ok := in.(ssa.CallInstruction); ok && ci.Common().StaticCallee() == cmpr {
+						return true
+					}
+					// the transition completes without compression
+					if ret, ok := in.(*ssa.Return); ok {
+						rv := ReturnValues(ret)
+						return len(rv) == 1 && IsNilConst(rv[0])
+					}
+					return false
+				}
+				found, path := PathQuery{Target: isNext, Avoid: isLimitCmp}.Search(fn, call)
+				c.Check(!found, "C10.8", FuncName(fn), "reencoded-form-checked-before-compression", call.Pos(),
+					"every path from the encode helper to the compress helper (or to the completed transition) compares the message buffer's length with the limit",
+					"the re-encoded form of a message (which can be many times the wire size) is compressed again / handed on without its size being compared with the limit ("+witnessString(p, path)+"): afterwards only the small compressed buffer is seen, so a message whose re-encoded form exceeds the limit is accepted exactly when the peer compressed")
+			}
+		}
+		if nEnc == 0 {
+			c.Bad("C10.8", FuncName(adv), "reencoded-form-checked-before-compression", adv.Pos(), "the stage transition never calls the encode helper: shape changed")
+		}
+	}
+
+	// ---------------------------------------------------------------- C10.9
+	// (defect D62) The error of a limit-enforcing decompression is a resource_exhausted error.  Where
+	// such an error is wrapped into a new error of another (constant) code, the wrapping happens
+	// only on edges that know it is NOT the limit error (errors.As failed, or its code is not
+	// CodeResourceExhausted) - otherwise 'message too large' reaches the client as 'internal'.
+	c.Rule("C10.9", "the error of a limit-enforcing decompression is not re-labelled with another code", 1)
+	{
+		nWrap := 0
+		for _, fn := range SortedFuncs(reach) {
+			if !p.inScope(fn) {
+				continue
+			}
+			for _, dc := range Calls(fn) {
+				sc := dc.Common().StaticCallee()
+				if sc == nil || N(sc) != "decompressLimited" {
+					continue
+				}
+				errV := dc.Value()
+				if errV == nil {
+					continue
+				}
+				fromErr := func(v ssa.Value) bool {
+					seen := map[ssa.Value]bool{}
+					var walk func(v ssa.Value, d int) bool
+					walk = func(v ssa.Value, d int) bool {
+						if d > 6 || seen[v] {
+							return false
+						}
+						seen[v] = true
+						if v == ssa.Value(errV) {
+							return true
+						}
+						switch x := v.(type) {
+						case *ssa.Call:
+							if IsCallTo(x, "fmt.Errorf", "errors.Join") {
+								for _, a := range x.Call.Args {
+									if walk(a, d+1) {
+										return true
+									}
+								}
+							}
+						case *ssa.Slice:
+							return walk(x.X, d+1)
+						case *ssa.Alloc:
+							for _, st := range storesToElems(x) {
+								if walk(st, d+1) {
+									return true
+								}
+							}
+						case *ssa.MakeInterface:
+							return walk(x.X, d+1)
+						case *ssa.ChangeInterface:
+							return walk(x.X, d+1)
+						case *ssa.Phi:
+							for _, e := range x.Edges {
+								if walk(e, d+1) {
+									return true
+								}
+							}
+						}
+						return false
+					}
+					return walk(v, 0)
+				}
+				for _, nc := range Calls(fn) {
+					if !IsCallTo(nc, "connectrpc.com/connect.NewError", "connectrpc.com/connect.NewWireError") {
+						continue
+					}
+					k, isK := ConstInt(nc.Common().Args[0])
+					if !isK || k == 8 /* CodeResourceExhausted */ || !fromErr(nc.Common().Args[1]) {
+						continue
+					}
+					nWrap++
+					edgeKnows := func(fs []Fact) bool {
+						for _, f := range fs {
+							if ic, ok := f.Cond.(*ssa.Call); ok && IsCallTo(ic, "errors.As") && !f.Truth {
+								return true
+							}
+							if cmp, ok := f.AsCmp(); ok {
+								if kk, isKK := ConstInt(cmp.Y); isKK && kk == 8 && cmp.Op == token.NEQ {
+									return true
+								}
+							}
+						}
+						return false
+					}
+					var blockKnows func(b *ssa.BasicBlock, depth int) bool
+					blockKnows = func(b *ssa.BasicBlock, depth int) bool {
+						if edgeKnows(FactsAt(b)) {
+							return true
+						}
+						if depth > 6 || len(b.Preds) == 0 || b == dc.Block() {
+							return false
+						}
+						for _, pr := range b.Preds {
+							if !edgeKnows(FactsOnEdge(pr, b)) && !blockKnows(pr, depth+1) {
+								return false
+							}
+						}
+						return true
+					}
+					ok := blockKnows(nc.Block(), 0)
+					c.Check(ok, "C10.9", FuncName(fn), "limit-error-keeps-its-code", nc.Pos(),
+						"the decompression error is wrapped into another code only where it is known not to be the limit error",
+						"the error of a limit-enforcing decompression is wrapped into a new error with another code without excluding the limit error first: a compressed body that inflates beyond the limit ends the RPC as 'internal' instead of resource_exhausted (the same body sent uncompressed is reported correctly)")
+				}
+			}
+		}
+		if nWrap == 0 {
+			c.OK("C10.9", "package", "limit-error-keeps-its-code", token.NoPos, "no decompression error is wrapped into an error of another code")
+		}
+	}
+
+	// ---------------------------------------------------------------- C10.10
+	// (defect D63) A Connect GET carries its message in the query string.  Before those bytes are
+	// decompressed / decoded they are compared with the message limit, as the bytes of a POST body
+	// are while they are read - otherwise GET and POST disagree about which messages exist.
+	c.Rule("C10.10", "a message taken from the query string is compared with the message limit before it is decoded", 1)
+	{
+		cbp := p.Iface("clientBodyPreparer")
+		nGet := 0
+		for _, t := range p.Implementers(cbp) {
+			m := p.MethodOf(t, "prepareUnmarshalledRequest")
+			if m == nil {
+				continue
+			}
+			for _, fn := range p.Family(m) {
+				usesQuery := false
+				for _, call := range Calls(fn) {
+					if sc := call.Common().StaticCallee(); sc != nil && N(sc) == "queryValues" {
+						usesQuery = true
+					}
+				}
+				if !usesQuery {
+					continue
+				}
+				for _, call := range Calls(fn) {
+					cc := call.Common()
+					if !cc.IsInvoke() || N(cc.Method) != "Unmarshal" {
+						continue
+					}
+					// only where the decoded bytes come from the query (not from the request body parameter)
+					fromParam := false
+					for _, l := range Origins(cc.Args[0]) {
+						if l.Kind == "param" {
+							fromParam = true
+						}
+					}
+					if fromParam {
+						continue
+					}
+					nGet++
+					isLimitCmp := func(in ssa.Instruction) bool {
+						iff, ok := in.(*ssa.If)
+						if !ok {
+							return false
+						}
+						b, ok := iff.Cond.(*ssa.BinOp)
+						if !ok {
+							return false
+						}
+						for _, side := range [][2]ssa.Value{{b.X, b.Y}, {b.Y, b.X}} {
+							isLen := false
+							for _, l := range Origins(side[0]) {
+								if l.Kind == "call" && IsCallTo(l.Call, "builtin len") {
+									isLen = true
+								}
+							}
+							if _, isConst := strip(side[1]).(*ssa.Const); isLen && !isConst && lc.isLimit(side[1]) {
+								return true
+							}
+						}
+						return false
+					}
+					found, path := PathQuery{Target: func(in ssa.Instruction) bool { return in == ssa.Instruction(call) }, Avoid: isLimitCmp}.Search(fn, nil)
+					c.Check(!found, "C10.10", FuncName(fn), "query-message-within-limit", call.Pos(),
+						"every path to the decoding of the query's message compares its length with the message limit",
+						"the message of a GET is decoded from the query string without its length being compared with the message limit ("+witnessString(p, path)+"): a message that a POST refuses with resource_exhausted is accepted as a GET")
+				}
+			}
+		}
+		if nGet == 0 {
+			c.Bad("C10.10", "clientBodyPreparer", "query-message-within-limit", token.NoPos, "no decoding of a message taken from the query string found: shape changed")
+		}
+	}
+
 	// ---------------------------------------------------------------- C10.6
 	// The limit-enforcing reader tells 'exactly the limit' from 'more than the limit' by letting
 	// the source deliver one byte more.  It must never end the stream on its own: a synthesised
@@ -939,4 +1195,24 @@ func counterBounded(p *Prog, lc *limCtx, fld *types.Var) bool {
 	res := all && n > 0
 	p.memo[key] = res
 	return res
+}
+
+// storesToElems: values stored into the elements of a local array (a variadic argument list).
+func storesToElems(al *ssa.Alloc) []ssa.Value {
+	var out []ssa.Value
+	if al.Referrers() == nil {
+		return nil
+	}
+	for _, ref := range *al.Referrers() {
+		ia, ok := ref.(*ssa.IndexAddr)
+		if !ok || ia.Referrers() == nil {
+			continue
+		}
+		for _, rr := range *ia.Referrers() {
+			if st, ok := rr.(*ssa.Store); ok && st.Addr == ssa.Value(ia) {
+				out = append(out, st.Val)
+			}
+		}
+	}
+	return out
 }
